@@ -74,12 +74,24 @@ mod c04p {
         tier.pick(60, 900)
     }
     pub fn gen(seed: u64, tier: Tier, k: u64) -> Value {
+        if k == 0 {
+            return json!({"specimens": true, "seed": seed});
+        }
         let mut rng = rng::Rng::keyed(seed, "C04P", k);
         let pkg = [c01::Pkg::OneFile, c01::Pkg::TwoFiles, c01::Pkg::NoConcat][(k % 3) as usize];
         cont::gen_small(&mut rng, tier, pkg, (k % 4 == 3) as usize, 8).to_json()
     }
     pub fn run(desc: &Value, ctx: &Ctx) -> CaseOut {
         let mut out = CaseOut::new();
+        if jbool(desc, "specimens") {
+            // the damage lab's own specimens (incl. the loose/concat one and the one with a missing pack) verify pristine
+            let specs = lab::specimens(ju64(desc, "seed"), &ctx.work);
+            lab::pristine_checks(specs, &mut out);
+            out.nontrivial = true;
+            out.fp = "lab-specimens".into();
+            out.obs.add("lab_specimens", specs.len() as u64);
+            return out;
+        }
         let case = cont::ContCase::from_json(desc);
         let scratch = util::Scratch::new(&ctx.work, "c04p");
         let mut fp = rng::Fp::new();
